@@ -7,7 +7,7 @@ Definition run (c : sx) : sx :=
   match c with
   | L (I k :: _) =>
       if (Z.leb 40 k && Z.ltb k 50)%bool then runKC c
-      else if (Z.leb 50 k && Z.ltb k 80)%bool then runMisc c
+      else if (Z.leb 50 k && Z.ltb k 90)%bool then runMisc c
       else sx_error 0
   | _ => sx_error 0
   end.
